@@ -931,13 +931,22 @@ def run(R):
 
 
 def replay(R, payload):
-    """True iff the recorded failure is still observed."""
+    """Re-executes the recorded run (generators are deterministic in the seed
+    and tier stored in the replay file) and reports whether a failure of the
+    recorded class is still observed on the current tree."""
+    import random
     case = payload.get("case", {})
-    if "bytes" in case and isinstance(case["bytes"], str) and case["bytes"].startswith("x") \
-            and case.get("len", 0) <= 120:
+    if isinstance(case.get("bytes"), str) and case["bytes"].startswith("x") and case.get("len", 10 ** 9) <= 120:
         b = bytes.fromhex(case["bytes"][1:])
         impl = read_impl(b)
         spec = spec_parse_py(b)
         good = (impl == ["ok", spec]) if spec is not None else (impl == ["FormatErr"])
-        return not good
-    return True
+        known = (len(b) < 4 and impl == ["Crash", "StructError"]) or (index_eq_count_py(b) and impl[0] == "ok")
+        return not good and not known
+    R.tier = payload.get("tier", R.tier)
+    R.rng = random.Random(f"{R.pid}:{payload.get('seed', 0)}")
+    run(R)
+    want = payload.get("what")
+    if payload.get("kind") == "property-violation":
+        return any(v["what"] == want for v in R.violations) if want else bool(R.violations)
+    return bool(R.violations or R.disagreements)
